@@ -1,6 +1,6 @@
 (* Non-vacuity: concrete, non-trivial values meeting the hypotheses of every theorem. *)
 From Coq Require Import String.
-From V Require Import Common.Base C15.Names C15.Renamer C15.Spec C15.NamesProofs C15.MinifyProofs C15.ResolveProofs C15.ScopeBuild C15.ScopeProg C15.Harness.
+From V Require Import Common.Base C15.Names C15.Renamer C15.Spec C15.NamesProofs C15.MinifyProofs C15.ResolveProofs C15.ScopeBuild C15.ScopeProg C15.ScopeResolveProofs C15.Harness.
 
 Example minname_ex : map (NumberToMinifiedName default_minifier) [0; 1; 53; 54; 55; 54 + 54 * 64; 1000000]
   = [[97]; [98]; [36]; [97;97]; [98;97]; [97;97;97]; [67;118;71;100]].
@@ -123,4 +123,16 @@ Example parse_forest_ex :
      Scope [4; 5]%nat [] None false                (* f's arguments scope: p arguments *)
        [Scope [6; 4; 5]%nat [] None false          (* body: w, p, arguments *)
           [Scope [7; 6]%nat [] None false []]]].   (* block: l, w *)
+Proof. vm_compute. reflexivity. Qed.
+
+(* the hypotheses of resolution_preserved_partial are met by prog_ex with "g" free and reserved:
+   the renamer succeeds, and the references g (free) and v (module-level var, read inside f) resolve *)
+Example resolution_ex :
+  let '(m, st) := parse_forest prog_ex in
+  match number_rename 100 st (ComputeReservedNames st [m]) (module_top m) (sc_children m) with
+  | Some names => map (fun xE => env_get (rename_env (number_name_for st names) (snd xE))
+                                         (match env_get (snd xE) (fst xE) with Some s => number_name_for st names s | None => []%list end))
+                      (parser_refs prog_ex)
+  | None => []
+  end = [Some 3%nat; Some 0%nat].
 Proof. vm_compute. reflexivity. Qed.
